@@ -285,10 +285,47 @@ def check_multi(case, stats):
     return viols, evals, keys
 
 
-FUNCS = {"mods": check_mods, "itp": check_itp, "multi": check_multi}
+# ------------------------------------------------------------------ residue-graph labels named like atom attributes
+def label_cases(tier):
+    yield dict(kind="labels", tier=tier)
+
+
+def check_labels(case, stats):
+    """residue-graph nodes may carry free labels; a label that happens to be called like an atom attribute (charge, mass,
+    atype, atomname, charge_group) on any one residue must leave the atoms verbatim copies of their blocks"""
+    viols, evals, keys = [], 0, []
+    spec = dict(blocks={k: F.BLOCKS[k] for k in "ABCD"}, links=[F.LINKS["bb"]], mods={})
+    ff_text = F.render_ff(spec)
+    labels = [{"charge": 1.0}, {"mass": 1.0}, {"atype": "ZZ"}, {"atomname": "QQ"}, {"charge_group": 99}, {"charge": 1.0, "mass": 2.0}]
+    for names in (["A", "A"], ["A", "C", "A"], ["C", "D", "A"], ["A", "A", "A", "A"]):
+        n = len(names)
+        base_rg = dict(n=n, edges=[[i, i + 1] for i in range(n - 1)], resids=[3 + i for i in range(n)], resnames=names)
+        exp = R.build(spec, base_rg)
+        want = [tuple(a[k] for k in ("atomname", "atype", "resname", "resid", "charge_group", "charge", "mass")) for a in exp["atoms"]]
+        for node in range(n):
+            for lab in labels:
+                rg = dict(base_rg, node_attrs={str(node): lab})
+                evals += 1
+                case1 = dict(kind="labels1", names=names, node=node, label=lab)
+                try:
+                    mm, _ = H.run_processors(H.parse_ff([("ff", ff_text)]), H.build_resgraph(rg))
+                except Exception as exc:  # noqa
+                    viols.append(crash_violation(exc, case1, assertion="labelled-residue-graph-accepted"))
+                    continue
+                got = [tuple(a[k] for k in ("atomname", "atype", "resname", "resid", "charge_group", "charge", "mass")) for a in H.mol_digest(mm.molecule)["atoms"]]
+                if got != want and len(viols) < 20:
+                    diff = [(i, g, w) for i, (g, w) in enumerate(zip(got, want)) if g != w][:3]
+                    viols.append(dict(assertion="atom-verbatim-despite-residue-label", tags=["label:" + "+".join(sorted(lab))],
+                                      message=f"residues {names}, residue {node} labelled {lab}: atoms differ from the blocks {diff}", case=case1, detail={}))
+                keys.append(json.dumps([names, node, lab], sort_keys=True))
+    return viols, evals, keys
+
+
+FUNCS = {"mods": check_mods, "itp": check_itp, "multi": check_multi, "labels": check_labels}
 
 
 def extra_cases(tier):
+    yield from label_cases(tier)
     yield from mod_cases(tier)
     yield from itp_cases(tier)
     batch = []
